@@ -167,7 +167,7 @@ Proof.
     destruct (handle _ m) as [x| |] eqn:H; try discriminate. injection Hstep as <-.
     destruct (handle_subs (clear_events s) m x id sb (kinv_clear _ Hi) H Hsb) as [F|(from & -> & F1 & F2 & F3)]; [left; exact F|].
     right. left. exists from. auto.
-  - left. injection Hstep as <-. destruct (fold_pchange_fields cs (clear_events s)) as (_ & G2 & _). rewrite G2. exact Hsb.
+  - left. destruct (forallb pchange_valid _); [|discriminate]. injection Hstep as <-. destruct (fold_pchange_fields cs (clear_events s)) as (_ & G2 & _). rewrite G2. exact Hsb.
   - destruct (end_block _) as [x| |] eqn:H; try discriminate. injection Hstep as <-.
     destruct (end_block_sub_fate (clear_events s) x id sb (life_clear _ Hl) H Hsb) as [F|[(F1 & F2 & F3)|(F1 & F2 & F3)]]; simpl; auto.
     + right. right. left. auto.
